@@ -230,6 +230,42 @@ func runC23(r *lib.Run) {
 				leaves = append(leaves, target)
 			}
 			ns := notifsFor(leaves, rng)
+			// a stream may carry a leaf several times, the last value counts: v, another value, v again
+			// (a flapping leaf) ahead of the notifications built above leaves the final state unchanged
+			if rng.Intn(2) == 0 {
+				var c []*lib.Leaf
+				for _, l := range leaves {
+					if editable(l) && !l.IsList && (strings.HasPrefix(l.Val, "string:") || strings.HasPrefix(l.Val, "bool:") || strings.HasPrefix(l.Val, "uint8:") || strings.HasPrefix(l.Val, "uint16:") || strings.HasPrefix(l.Val, "uint32:")) {
+						c = append(c, l)
+					}
+				}
+				if len(c) > 0 {
+					x := c[rng.Intn(len(c))]
+					alt := *x
+					switch {
+					case strings.HasPrefix(alt.Val, "string:"):
+						alt.Val += "-flap"
+					case alt.Val == "bool:true":
+						alt.Val = "bool:false"
+					case alt.Val == "bool:false":
+						alt.Val = "bool:true"
+					case strings.HasSuffix(alt.Val, ":1"):
+						alt.Val = alt.Val[:strings.Index(alt.Val, ":")] + ":2"
+					default:
+						alt.Val = alt.Val[:strings.Index(alt.Val, ":")] + ":1"
+					}
+					tvx, e1 := lib.LeafTV(x)
+					tva, e2 := lib.LeafTV(&alt)
+					if e1 == nil && e2 == nil {
+						pre := []*gpb.Notification{
+							{Timestamp: 1, Update: []*gpb.Update{{Path: lib.ToGNMIPath(x.Elems), Val: tvx}}},
+							{Timestamp: 1, Update: []*gpb.Update{{Path: lib.ToGNMIPath(x.Elems), Val: tva}}},
+						}
+						ns = append(pre, ns...)
+						r.Hit("stream:flapping-leaf")
+					}
+				}
+			}
 			r.Case(cfg.Name+edit+req.String()+fmt.Sprint(len(ns)), len(L) >= 3)
 			w := wit(cfg, r.Seed, i, map[string]interface{}{"request": lib.Clip(req.String(), 4000), "edit": edit, "notifications": notifStrings(ns)})
 			if target != nil {
@@ -381,8 +417,22 @@ func stripLossy(cfg *lib.Cfg, t ygot.GoStruct) {
 				}
 			case lib.KList, lib.KOrdered:
 				for _, kf := range cfg.Info(f.Elem).KeyFields() {
-					if kf != nil && lossyKind(f.Elem.Elem().Field(kf.Idx).Type) {
+					if kf == nil {
+						continue
+					}
+					kt := f.Elem.Elem().Field(kf.Idx).Type
+					if lossyKind(kt) {
 						fv.Set(reflect.Zero(fv.Type()))
+					} else if kt.Kind() == reflect.Interface && f.Kind == lib.KList && !fv.IsNil() {
+						// union keys: the entries whose key holds a member of a lossy kind
+						for _, mk := range fv.MapKeys() {
+							if e := fv.MapIndex(mk); !e.IsNil() && lossyValue(e.Elem().Field(kf.Idx)) {
+								fv.SetMapIndex(mk, reflect.Value{})
+							}
+						}
+						if fv.Len() == 0 {
+							fv.Set(reflect.Zero(fv.Type()))
+						}
 					}
 				}
 			case lib.KUnkeyed:
